@@ -60,6 +60,7 @@ type Violation struct {
 	Detail   string            `json:"detail,omitempty"`
 	Finding  string            `json:"finding,omitempty"` // known-finding id it falls in, "" = new
 	Sched    []int             `json:"sched,omitempty"`
+	MapIters int               `json:"map_iterations,omitempty"` // iterations over maps of more than one entry on the path
 	Expected map[string]string `json:"expected,omitempty"`
 }
 
@@ -970,6 +971,7 @@ func (p *Path) recordViolation(kind, clause, detail, finding string, m map[strin
 	if p.sched != nil {
 		v.Sched = append([]int(nil), p.sched.trace...)
 	}
+	v.MapIters = p.mapRanges
 	p.viols = append(p.viols, v)
 	if finding != "" {
 		p.witnessed[finding] = true
